@@ -6,9 +6,107 @@
 import KmipModel.Model.Lex
 import KmipModel.Lemmas.ReaderLemmas
 import KmipModel.Lemmas.RegistryLemmas
-import KmipModel.Lemmas.KeyAccessLemmas
+import KmipModel.Lemmas.BigIntLemmas
 namespace Kmip.Lex
 open Kmip Kmip.Reg
+
+/-! ## 0. `bigIntToBytes(v, padding)` for every padding
+    (the statements of `Kmip.Key.twos_bigBytes` … in `Lemmas/KeyAccessLemmas.lean`, repeated for this
+    model's own `bigBytes` so that C04 does not depend on the C14 files) -/
+
+theorem byte_of_nibbles (b : UInt8) : (b.toNat / 16 * 16 + b.toNat % 16).toUInt8 = b := by
+  have e : b.toNat / 16 * 16 + b.toNat % 16 = b.toNat := by omega
+  rw [e, ← UInt8.toNat_inj]
+  simp
+
+def effPad (p : Nat) : Nat := if p < 1 then 1 else p
+
+theorem effPad_pos (p : Nat) : 0 < effPad p := by unfold effPad; split <;> omega
+
+def posPadG (p : Nat) (mag : Bytes) : Nat :=
+  if ¬ mag.headD 0 < 0x80 ∧ padForLen mag.length (effPad p) = 0 then effPad p
+  else padForLen mag.length (effPad p)
+
+def negPadG (p : Nat) (b : Bytes) : Nat :=
+  if b.headD 0 < 0x80 ∧ padForLen b.length (effPad p) = 0 then effPad p
+  else padForLen b.length (effPad p)
+
+theorem bigBytes_zero (p : Nat) : bigBytes 0 p = List.replicate (effPad p) 0 := by
+  simp [bigBytes, bigIntToBytes, effPad]
+
+theorem bigBytes_pos (v : Int) (p : Nat) (h : 0 < v) :
+    bigBytes v p = List.replicate (posPadG p (natToBytesBE v.natAbs)) 0 ++ natToBytesBE v.natAbs := by
+  have h1 : ¬ v < 0 := by omega
+  have h2 : ¬ v = 0 := by omega
+  have e : ((0 : UInt8) &&& 1) = 0 := by decide
+  simp only [bigBytes, bigIntToBytes, h1, h2, if_false, posPadG, effPad, e]
+  simp only [ne_eq, UInt8.topbit_zero_iff]
+  simp
+
+theorem bigBytes_neg (v : Int) (p : Nat) (h : v < 0) :
+    bigBytes v p = List.replicate (negPadG p (negBody v)) 0xFF ++ negBody v := by
+  have e : ((0xFF : UInt8) &&& 1) = 1 := by decide
+  have e2 : ∀ x : UInt8, (¬ ((x >>> 7) &&& 1 = 1)) ↔ x < 0x80 := by
+    intro x; rw [UInt8.topbit_one_iff]; exact Decidable.not_not
+  simp only [bigBytes, bigIntToBytes, h, if_true, negPadG, effPad, e]
+  simp only [e2, ← negBody.eq_1, negBody_length]
+
+theorem posPadG_head (p : Nat) (mag : Bytes) : 0 < posPadG p mag ∨ mag.headD 0 < 0x80 := by
+  unfold posPadG
+  by_cases h : mag.headD 0 < 0x80
+  · exact Or.inr h
+  · left
+    have := effPad_pos p
+    by_cases hp : padForLen mag.length (effPad p) = 0
+    · rw [if_pos ⟨h, hp⟩]; exact this
+    · rw [if_neg (fun hc => hp hc.2)]; omega
+
+theorem negPadG_head (p : Nat) (b : Bytes) : 0 < negPadG p b ∨ ¬ b.headD 0 < 0x80 := by
+  unfold negPadG
+  by_cases h : b.headD 0 < 0x80
+  · left
+    have := effPad_pos p
+    by_cases hp : padForLen b.length (effPad p) = 0
+    · rw [if_pos ⟨h, hp⟩]; exact this
+    · rw [if_neg (fun hc => hp hc.2)]; omega
+  · exact Or.inr h
+
+/-- for every padding the written bytes are a two's complement encoding of the value. -/
+theorem twos_bigBytes (v : Int) (p : Nat) : twos (bigBytes v p) = v := by
+  rcases Int.lt_trichotomy v 0 with h | h | h
+  · rw [bigBytes_neg v p h, twos_pad_ff _ _ (negBody_ne_nil v h) (negPadG_head _ _), negBody_length]
+    have hn : v.natAbs ≠ 0 := by omega
+    have := beVal_negEnc (natToBytesBE v.natAbs) (by rw [beVal_natToBytesBE]; exact hn)
+    rw [beVal_natToBytesBE] at this
+    unfold negBody
+    omega
+  · subst h
+    rw [bigBytes_zero]
+    have := twos_pad_zero (effPad p) [] (Or.inl (effPad_pos p))
+    simpa using this
+  · rw [bigBytes_pos v p h, twos_pad_zero _ _ (posPadG_head _ _), beVal_natToBytesBE]
+    omega
+
+theorem bigBytes_ne_nil (v : Int) (p : Nat) : bigBytes v p ≠ [] := by
+  rcases Int.lt_trichotomy v 0 with h | h | h
+  · rw [bigBytes_neg v p h]
+    have := negBody_ne_nil v h
+    simp [this]
+  · subst h
+    rw [bigBytes_zero]
+    have := effPad_pos p
+    intro e
+    have := congrArg List.length e
+    simp at this
+    omega
+  · rw [bigBytes_pos v p h]
+    have := natToBytesBE_ne_nil (n := v.natAbs) (by omega)
+    simp [this]
+
+theorem encodeBig_eq_bigBytes (v : Int) : encodeBig v = bigBytes v 8 := rfl
+
+theorem bytesToBigInt_bigBytes (v : Int) (p : Nat) : bytesToBigInt (bigBytes v p) = v := by
+  rw [bytesToBigInt_eq_twos_aux _ (bigBytes_ne_nil v p), twos_bigBytes]
 
 /-! ## 1. decimal numerals -/
 
@@ -220,7 +318,7 @@ theorem hexDec_hexUp (bs : Bytes) : hexDec (hexUp bs) = some bs := by
   | cons b bs ih =>
     have h1 : b.toNat / 16 < 16 := by have := b.toNat_lt; omega
     have h2 : b.toNat % 16 < 16 := Nat.mod_lt _ (by decide)
-    simp only [hexUp, hexDec, nibble_hexDigit _ h1, nibble_hexDigit _ h2, ih, Key.byte_of_nibbles]
+    simp only [hexUp, hexDec, nibble_hexDigit _ h1, nibble_hexDigit _ h2, ih, byte_of_nibbles]
 
 theorem hexDec_hexLo (bs : Bytes) : hexDec (hexLo bs) = some bs := by
   induction bs with
@@ -228,7 +326,7 @@ theorem hexDec_hexLo (bs : Bytes) : hexDec (hexLo bs) = some bs := by
   | cons b bs ih =>
     have h1 : b.toNat / 16 < 16 := by have := b.toNat_lt; omega
     have h2 : b.toNat % 16 < 16 := Nat.mod_lt _ (by decide)
-    simp only [hexLo, hexDec, nibble_hexDigitLo _ h1, nibble_hexDigitLo _ h2, ih, Key.byte_of_nibbles]
+    simp only [hexLo, hexDec, nibble_hexDigitLo _ h1, nibble_hexDigitLo _ h2, ih, byte_of_nibbles]
 
 theorem bigOfHex_of_dec {s : Str} {bs : Bytes} (h : hexDec s = some bs) (hne : bs ≠ []) :
     bigOfHex s = .ok (bytesToBigInt bs) := by
@@ -321,8 +419,8 @@ theorem xLong_itoa {v : Int} (h : int64Ok v = true) : xLong (itoa v) = .ok v := 
   rw [goParseInt64_itoa h]; rfl
 
 /-- BigInteger, every integer. -/
-theorem bigOfHex_xml (v : Int) : bigOfHex (hexUp (Key.bigBytes v 1)) = .ok v := by
-  rw [bigOfHex_of_dec (hexDec_hexUp _) (Key.bigBytes_ne_nil v 1), Key.bytesToBigInt_bigBytes]
+theorem bigOfHex_xml (v : Int) : bigOfHex (hexUp (bigBytes v 1)) = .ok v := by
+  rw [bigOfHex_of_dec (hexDec_hexUp _) (bigBytes_ne_nil v 1), bytesToBigInt_bigBytes]
 
 /-- Enumeration, every uint32, any tables satisfying the C17 conditions. -/
 theorem xEnum_text {byValue byName : Table} (hb : bijective byValue byName = true)
@@ -397,11 +495,11 @@ theorem jLong_value {T : Tables} {R : Rfc3339} {t v : Int} (h : int64Ok v = true
 theorem jBig_value {T : Tables} {R : Rfc3339} {t v : Int} :
     jBig (some (jsonValue T R (.big t v))) = .ok v := by
   by_cases hth : v ≥ maxJsonInt ∨ v ≤ -maxJsonInt
-  · have : jsonValue T R (.big t v) = .str (48 :: 120 :: hexLo (Key.bigBytes v 8)) := by
+  · have : jsonValue T R (.big t v) = .str (48 :: 120 :: hexLo (bigBytes v 8)) := by
       simp [jsonValue, hth]
     rw [this]
     simp only [jBig]
-    rw [bigOfHex_of_dec (hexDec_hexLo _) (Key.bigBytes_ne_nil v 8), Key.bytesToBigInt_bigBytes]
+    rw [bigOfHex_of_dec (hexDec_hexLo _) (bigBytes_ne_nil v 8), bytesToBigInt_bigBytes]
   · have : jsonValue T R (.big t v) = .num v true := by simp [jsonValue, hth]
     rw [this]
     have h64 : int64Ok v = true := by
@@ -679,7 +777,7 @@ theorem tag_after_stop (T : Tables) (rest : List Tok) : XCur.tag T (after (.stop
   cases T.oldTags <;> simp [after, XCur.tag, Tables.tagOfText, XCur.rawTag, tagFromText, tagFromTextOld]
 
 section
-variable {T : Tables} (hT : T.WF) {R : Rfc3339} (hR : R.Lawful) {H : Hints}
+variable {T : Tables} (hT : T.WF) {R : Rfc3339} (hR : R.Lawful) {H : Hints} {top : Bool}
 include hT hR
 
 /-- the generic decoder on a scalar element written by the XML writer. -/
@@ -761,13 +859,13 @@ theorem xDecodeValue_scalar (t : XItem) (hns : t.ty ≠ 1) (f : Nat) (rest : Lis
 mutual
   /-- the generic decoder reads back every representable tree the XML writer wrote, whatever follows it
       in the token stream, with any fuel `≥ size`. -/
-  theorem xDecodeValue_write : ∀ (t : XItem) (fuel : Nat) (rest : List Tok), t.size ≤ fuel →
+  theorem xDecodeValue_write : ∀ (t : XItem) (top : Bool) (fuel : Nat) (rest : List Tok), t.size ≤ fuel →
       t.representableG top R H = true →
       xDecodeValue T R H fuel (after ((xmlWrite T R t).toks ++ rest)) t.tag = .ok (t, after rest)
-    | .struct tag cs, fuel, rest, hf, hr => by
+    | .struct tag cs, top, fuel, rest, hf, hr => by
       obtain ⟨f, rfl⟩ : ∃ f, fuel = f + 1 := ⟨fuel - 1, by simp [XItem.size] at hf; omega⟩
       simp only [XItem.representableG, Bool.and_eq_true] at hr
-      have htag := hr.1
+      have htag := tagOk0_of_root hr.1
       have hsz : XItem.sizeList cs ≤ f := by simp [XItem.size] at hf; omega
       have hc : after ((xmlWrite T R (.struct tag cs)).toks ++ rest) =
           ⟨some (xmlStart T 1 tag none), XElem.toksList (xmlWriteList T R cs) ++ .stop :: rest, false⟩ := by
@@ -787,43 +885,43 @@ mutual
         next_noskip (Or.inr ⟨ty_xmlStart T hT (by decide) (by decide) htag none rest true, rfl⟩) (Or.inr rfl)
       rw [hn2]
       rfl
-    | .int tag v, fuel, rest, hf, hr => by
+    | .int tag v, top, fuel, rest, hf, hr => by
       obtain ⟨f, rfl⟩ : ∃ f, fuel = f + 1 := ⟨fuel - 1, by simp [XItem.size] at hf; omega⟩
       simp only [xmlWrite, toks_xmlScalar]
       exact xDecodeValue_scalar hT hR (.int tag v) (by simp [XItem.ty]) f rest hr
-    | .mask tag m v, fuel, rest, hf, hr => by
+    | .mask tag m v, top, fuel, rest, hf, hr => by
       obtain ⟨f, rfl⟩ : ∃ f, fuel = f + 1 := ⟨fuel - 1, by simp [XItem.size] at hf; omega⟩
       simp only [xmlWrite, toks_xmlScalar]
       exact xDecodeValue_scalar hT hR (.mask tag m v) (by simp [XItem.ty]) f rest hr
-    | .long tag v, fuel, rest, hf, hr => by
+    | .long tag v, top, fuel, rest, hf, hr => by
       obtain ⟨f, rfl⟩ : ∃ f, fuel = f + 1 := ⟨fuel - 1, by simp [XItem.size] at hf; omega⟩
       simp only [xmlWrite, toks_xmlScalar]
       exact xDecodeValue_scalar hT hR (.long tag v) (by simp [XItem.ty]) f rest hr
-    | .big tag v, fuel, rest, hf, hr => by
+    | .big tag v, top, fuel, rest, hf, hr => by
       obtain ⟨f, rfl⟩ : ∃ f, fuel = f + 1 := ⟨fuel - 1, by simp [XItem.size] at hf; omega⟩
       simp only [xmlWrite, toks_xmlScalar]
       exact xDecodeValue_scalar hT hR (.big tag v) (by simp [XItem.ty]) f rest hr
-    | .enum tag e v, fuel, rest, hf, hr => by
+    | .enum tag e v, top, fuel, rest, hf, hr => by
       obtain ⟨f, rfl⟩ : ∃ f, fuel = f + 1 := ⟨fuel - 1, by simp [XItem.size] at hf; omega⟩
       simp only [xmlWrite, toks_xmlScalar]
       exact xDecodeValue_scalar hT hR (.enum tag e v) (by simp [XItem.ty]) f rest hr
-    | .bool tag b, fuel, rest, hf, hr => by
+    | .bool tag b, top, fuel, rest, hf, hr => by
       obtain ⟨f, rfl⟩ : ∃ f, fuel = f + 1 := ⟨fuel - 1, by simp [XItem.size] at hf; omega⟩
       simp only [xmlWrite, toks_xmlScalar]
       exact xDecodeValue_scalar hT hR (.bool tag b) (by simp [XItem.ty]) f rest hr
-    | .text tag s, fuel, rest, hf, hr => by
+    | .text tag s, top, fuel, rest, hf, hr => by
       obtain ⟨f, rfl⟩ : ∃ f, fuel = f + 1 := ⟨fuel - 1, by simp [XItem.size] at hf; omega⟩
       simp only [xmlWrite, toks_xmlScalar]
       exact xDecodeValue_scalar hT hR (.text tag s) (by simp [XItem.ty]) f rest hr
-    | .bytes tag s, fuel, rest, hf, hr => by
+    | .bytes tag s, top, fuel, rest, hf, hr => by
       obtain ⟨f, rfl⟩ : ∃ f, fuel = f + 1 := ⟨fuel - 1, by simp [XItem.size] at hf; omega⟩
       simp only [xmlWrite, toks_xmlScalar]
       exact xDecodeValue_scalar hT hR (.bytes tag s) (by simp [XItem.ty]) f rest hr
-    | .date tag v, fuel, rest, hf, hr => by
+    | .date tag v, top, fuel, rest, hf, hr => by
       obtain ⟨f, rfl⟩ : ∃ f, fuel = f + 1 := ⟨fuel - 1, by simp [XItem.size] at hf; omega⟩
       simp only [xmlWrite, toks_xmlScalar]
       exact xDecodeValue_scalar hT hR (.date tag v) (by simp [XItem.ty]) f rest hr
-    | .interval tag v, fuel, rest, hf, hr => by
+    | .interval tag v, top, fuel, rest, hf, hr => by
       obtain ⟨f, rfl⟩ : ∃ f, fuel = f + 1 := ⟨fuel - 1, by simp [XItem.size] at hf; omega⟩
       simp only [xmlWrite, toks_xmlScalar]
       exact xDecodeValue_scalar hT hR (.interval tag v) (by simp [XItem.ty]) f rest hr
@@ -842,8 +940,8 @@ mutual
       simp only [XItem.representableList, Bool.and_eq_true] at hr
       have h1 : c.size ≤ f := by simp [XItem.sizeList] at hf; omega
       have h2 : XItem.sizeList cs ≤ f := by simp [XItem.sizeList] at hf; omega
-      have hv := xDecodeValue_write c f (XElem.toksList (xmlWriteList T R cs) ++ .stop :: rest) h1 hr.1
-      have htag := tagOk_iff.mp (XItem.tagOk_of_rep hr.1)
+      have hv := xDecodeValue_write c false f (XElem.toksList (xmlWriteList T R cs) ++ .stop :: rest) h1 hr.1
+      have htag := XItem.tagPos_of_rep hr.1
       -- the cursor is on the start element of `c`: its tag is `c.tag ≠ 0`
       have hcur : XCur.tag T (after ((xmlWrite T R c).toks ++
           (XElem.toksList (xmlWriteList T R cs) ++ .stop :: rest))) = c.tag := by
@@ -888,7 +986,8 @@ end
 theorem toks_ne_nil (e : XElem) : e.toks ≠ [] := by cases e; simp [XElem.toks]
 
 /-- XML: the reader reads back every representable tree the writer wrote. -/
-theorem xmlRead_write {T : Tables} (hT : T.WF) {R : Rfc3339} (hR : R.Lawful) {H : Hints} (t : XItem)
+theorem xmlRead_write {T : Tables} (hT : T.WF) {R : Rfc3339} (hR : R.Lawful) {H : Hints} {top : Bool}
+    (t : XItem)
     (hr : t.representableG top R H = true) : xmlRead T R H (xmlWrite T R t) = .ok t := by
   unfold xmlRead xmlReadToks
   have hn : XCur.next ⟨none, (xmlWrite T R t).toks, false⟩ = .ok (after (xmlWrite T R t).toks) :=
@@ -896,7 +995,7 @@ theorem xmlRead_write {T : Tables} (hT : T.WF) {R : Rfc3339} (hR : R.Lawful) {H 
   rw [hn]
   simp only [Res.ok_bind]
   have ht := tag_after_write hT (R := R) t hr []
-  have hv := xDecodeValue_write hT hR t (2 * (xmlWrite T R t).toks.length + 2) []
+  have hv := xDecodeValue_write hT hR t top (2 * (xmlWrite T R t).toks.length + 2) []
     (by have := size_le_toks T R t; omega) hr
   rw [List.append_nil] at ht hv
   rw [ht, hv]
@@ -971,7 +1070,7 @@ theorem scalar_jsonElem {α : Type} (T : Tables) (hT : T.WF) {ty : Nat} (hty1 : 
 /-! ## 10. JSON: trees -/
 
 section
-variable {T : Tables} (hT : T.WF) {R : Rfc3339} (hR : R.Lawful) {H : Hints}
+variable {T : Tables} (hT : T.WF) {R : Rfc3339} (hR : R.Lawful) {H : Hints} {top : Bool}
 include hT hR
 
 theorem jDecodeValue_scalar (t : XItem) (hns : t.ty ≠ 1) (f : Nat) (more : List JVal)
@@ -1052,47 +1151,47 @@ theorem jDecodeValue_scalar (t : XItem) (hns : t.ty ≠ 1) (f : Nat) (more : Lis
     rfl
 
 mutual
-  theorem jDecodeValue_write : ∀ (t : XItem) (fuel : Nat) (more : List JVal), t.size ≤ fuel →
+  theorem jDecodeValue_write : ∀ (t : XItem) (top : Bool) (fuel : Nat) (more : List JVal), t.size ≤ fuel →
       t.representableG top R H = true →
       jDecodeValue T R H fuel ⟨jsonWrite T R t :: more⟩ t.tag = .ok (t, ⟨more⟩)
-    | .struct tag cs, fuel, more, hf, hr => by
+    | .struct tag cs, top, fuel, more, hf, hr => by
       obtain ⟨f, rfl⟩ : ∃ f, fuel = f + 1 := ⟨fuel - 1, by simp [XItem.size] at hf; omega⟩
       simp only [XItem.representableG, Bool.and_eq_true] at hr
-      have htag := hr.1
+      have htag := tagOk0_of_root hr.1
       have hsz : XItem.sizeList cs ≤ f := by simp [XItem.size] at hf; omega
       simp only [jsonWrite, XItem.tag]
       rw [jDecodeValue, jty_jsonElem T (by decide) (by decide)]
       simp only [jtag_jsonElem T hT 1 htag, ne_eq, not_true_eq_false, if_false, get_sValue]
       rw [jDecodeFields_write cs f hsz hr.2]
       rfl
-    | .int tag v, fuel, more, hf, hr => by
+    | .int tag v, top, fuel, more, hf, hr => by
       obtain ⟨f, rfl⟩ : ∃ f, fuel = f + 1 := ⟨fuel - 1, by simp [XItem.size] at hf; omega⟩
       exact jDecodeValue_scalar hT hR (.int tag v) (by simp [XItem.ty]) f more hr
-    | .mask tag m v, fuel, more, hf, hr => by
+    | .mask tag m v, top, fuel, more, hf, hr => by
       obtain ⟨f, rfl⟩ : ∃ f, fuel = f + 1 := ⟨fuel - 1, by simp [XItem.size] at hf; omega⟩
       exact jDecodeValue_scalar hT hR (.mask tag m v) (by simp [XItem.ty]) f more hr
-    | .long tag v, fuel, more, hf, hr => by
+    | .long tag v, top, fuel, more, hf, hr => by
       obtain ⟨f, rfl⟩ : ∃ f, fuel = f + 1 := ⟨fuel - 1, by simp [XItem.size] at hf; omega⟩
       exact jDecodeValue_scalar hT hR (.long tag v) (by simp [XItem.ty]) f more hr
-    | .big tag v, fuel, more, hf, hr => by
+    | .big tag v, top, fuel, more, hf, hr => by
       obtain ⟨f, rfl⟩ : ∃ f, fuel = f + 1 := ⟨fuel - 1, by simp [XItem.size] at hf; omega⟩
       exact jDecodeValue_scalar hT hR (.big tag v) (by simp [XItem.ty]) f more hr
-    | .enum tag e v, fuel, more, hf, hr => by
+    | .enum tag e v, top, fuel, more, hf, hr => by
       obtain ⟨f, rfl⟩ : ∃ f, fuel = f + 1 := ⟨fuel - 1, by simp [XItem.size] at hf; omega⟩
       exact jDecodeValue_scalar hT hR (.enum tag e v) (by simp [XItem.ty]) f more hr
-    | .bool tag b, fuel, more, hf, hr => by
+    | .bool tag b, top, fuel, more, hf, hr => by
       obtain ⟨f, rfl⟩ : ∃ f, fuel = f + 1 := ⟨fuel - 1, by simp [XItem.size] at hf; omega⟩
       exact jDecodeValue_scalar hT hR (.bool tag b) (by simp [XItem.ty]) f more hr
-    | .text tag s, fuel, more, hf, hr => by
+    | .text tag s, top, fuel, more, hf, hr => by
       obtain ⟨f, rfl⟩ : ∃ f, fuel = f + 1 := ⟨fuel - 1, by simp [XItem.size] at hf; omega⟩
       exact jDecodeValue_scalar hT hR (.text tag s) (by simp [XItem.ty]) f more hr
-    | .bytes tag s, fuel, more, hf, hr => by
+    | .bytes tag s, top, fuel, more, hf, hr => by
       obtain ⟨f, rfl⟩ : ∃ f, fuel = f + 1 := ⟨fuel - 1, by simp [XItem.size] at hf; omega⟩
       exact jDecodeValue_scalar hT hR (.bytes tag s) (by simp [XItem.ty]) f more hr
-    | .date tag v, fuel, more, hf, hr => by
+    | .date tag v, top, fuel, more, hf, hr => by
       obtain ⟨f, rfl⟩ : ∃ f, fuel = f + 1 := ⟨fuel - 1, by simp [XItem.size] at hf; omega⟩
       exact jDecodeValue_scalar hT hR (.date tag v) (by simp [XItem.ty]) f more hr
-    | .interval tag v, fuel, more, hf, hr => by
+    | .interval tag v, top, fuel, more, hf, hr => by
       obtain ⟨f, rfl⟩ : ∃ f, fuel = f + 1 := ⟨fuel - 1, by simp [XItem.size] at hf; omega⟩
       exact jDecodeValue_scalar hT hR (.interval tag v) (by simp [XItem.ty]) f more hr
   theorem jDecodeFields_write : ∀ (cs : List XItem) (fuel : Nat), XItem.sizeList cs ≤ fuel →
@@ -1106,8 +1205,8 @@ mutual
       simp only [XItem.representableList, Bool.and_eq_true] at hr
       have h1 : c.size ≤ f := by simp [XItem.sizeList] at hf; omega
       have h2 : XItem.sizeList cs ≤ f := by simp [XItem.sizeList] at hf; omega
-      have hv := jDecodeValue_write c f (jsonWriteList T R cs) h1 hr.1
-      have htag := tagOk_iff.mp (XItem.tagOk_of_rep hr.1)
+      have hv := jDecodeValue_write c false f (jsonWriteList T R cs) h1 hr.1
+      have htag := XItem.tagPos_of_rep hr.1
       have hcur : JCur.tag T ⟨jsonWrite T R c :: jsonWriteList T R cs⟩ = c.tag := by
         cases c <;> simp only [jsonWrite, XItem.tag] <;>
           exact jtag_jsonElem T hT _ (XItem.tagOk_of_rep hr.1) _ _
@@ -1176,17 +1275,21 @@ mutual
 end
 
 /-- JSON: the reader reads back every representable tree the writer wrote. -/
-theorem jsonRead_write {T : Tables} (hT : T.WF) {R : Rfc3339} (hR : R.Lawful) {H : Hints} (t : XItem)
+theorem jsonRead_write {T : Tables} (hT : T.WF) {R : Rfc3339} (hR : R.Lawful) {H : Hints} {top : Bool}
+    (t : XItem)
     (hr : t.representableG top R H = true) : jsonRead T R H (jsonWrite T R t) = .ok t := by
   unfold jsonRead
   simp only [jtag_write hT (R := R) t hr []]
-  rw [jDecodeValue_write hT hR t _ [] (by have := size_le_jsize T R t; omega) hr]
+  rw [jDecodeValue_write hT hR t top _ [] (by have := size_le_jsize T R t; omega) hr]
   rfl
+
 
 /-! ## 11. what the readers return is normalised (towards C18: alternative lexical forms on input) -/
 
 /-- values of the name ↦ number tables fit 32 bits (they are Go `uint32` / `int32` map values). -/
 structure Tables.Bounded (T : Tables) : Prop where
+  newTags : T.oldTags = false
+  tagVals : ∀ p ∈ T.tagByName, p.2 < 2 ^ 24
   enumVals : ∀ e ∈ T.enums, ∀ p ∈ e.2.2, p.2 < 2 ^ 32
   maskVals : ∀ m ∈ T.masks, ∀ p ∈ m.2.2, p.2 < 2 ^ 32
 
@@ -1206,68 +1309,81 @@ mutual
 end
 
 mutual
-  /-- every tag is a 24-bit KMIP tag, every date lies in years 1..9999. -/
-  def XItem.inDomain : XItem → Bool
-    | .struct t cs => tagOk t && XItem.inDomainList cs
-    | .date t v => tagOk t && decide (minEpoch ≤ v) && decide (v ≤ maxEpoch)
-    | x => tagOk x.tag
-  def XItem.inDomainList : List XItem → Bool
+  /-- every tag is a 24-bit KMIP tag (the root's may be 0 when `top`), every date passes the year test. -/
+  def XItem.inDomainG (top : Bool) (R : Rfc3339) : XItem → Bool
+    | .struct t cs => rootTagOk top t && XItem.inDomainList R cs
+    | .date t v => rootTagOk top t && R.inYears v
+    | x => rootTagOk top x.tag
+  def XItem.inDomainList (R : Rfc3339) : List XItem → Bool
     | [] => true
-    | x :: xs => x.inDomain && XItem.inDomainList xs
+    | x :: xs => x.inDomainG false R && XItem.inDomainList R xs
 end
 
 mutual
-  theorem rep_of_normal (H : Hints) : ∀ t : XItem, t.normal H = true → t.inDomain = true →
-      t.representable H = true
+  theorem rep_of_normal (R : Rfc3339) (H : Hints) (top : Bool) : ∀ t : XItem, t.normal H = true →
+      t.inDomainG top R = true → t.representableG top R H = true
     | .struct t cs, hn, hd => by
       simp only [XItem.normal] at hn
-      simp only [XItem.inDomain, Bool.and_eq_true] at hd
+      simp only [XItem.inDomainG, Bool.and_eq_true] at hd
       simp only [XItem.representableG, Bool.and_eq_true]
-      exact ⟨hd.1, repList_of_normal H cs hn hd.2⟩
+      exact ⟨hd.1, repList_of_normal R H cs hn hd.2⟩
     | .int t v, hn, hd => by
       simp only [XItem.normal, Bool.and_eq_true] at hn
-      simp only [XItem.inDomain, XItem.tag] at hd
+      simp only [XItem.inDomainG, XItem.tag] at hd
       simp only [XItem.representableG, Bool.and_eq_true]; exact ⟨⟨hd, hn.1⟩, hn.2⟩
     | .mask t m v, hn, hd => by
       simp only [XItem.normal, Bool.and_eq_true] at hn
-      simp only [XItem.inDomain, XItem.tag] at hd
+      simp only [XItem.inDomainG, XItem.tag] at hd
       simp only [XItem.representableG, Bool.and_eq_true]; exact ⟨⟨hd, hn.1⟩, hn.2⟩
     | .long t v, hn, hd => by
       simp only [XItem.normal] at hn
-      simp only [XItem.inDomain, XItem.tag] at hd
+      simp only [XItem.inDomainG, XItem.tag] at hd
       simp only [XItem.representableG, Bool.and_eq_true]; exact ⟨hd, hn⟩
     | .big t v, _, hd => by
-      simp only [XItem.inDomain, XItem.tag] at hd
-      simp only [XItem.representable]; exact hd
+      simp only [XItem.inDomainG, XItem.tag] at hd
+      simp only [XItem.representableG]; exact hd
     | .enum t e v, hn, hd => by
       simp only [XItem.normal, Bool.and_eq_true] at hn
-      simp only [XItem.inDomain, XItem.tag] at hd
+      simp only [XItem.inDomainG, XItem.tag] at hd
       simp only [XItem.representableG, Bool.and_eq_true]; exact ⟨⟨hd, hn.1⟩, hn.2⟩
     | .bool t b, _, hd => by
-      simp only [XItem.inDomain, XItem.tag] at hd
-      simp only [XItem.representable]; exact hd
+      simp only [XItem.inDomainG, XItem.tag] at hd
+      simp only [XItem.representableG]; exact hd
     | .text t s, _, hd => by
-      simp only [XItem.inDomain, XItem.tag] at hd
-      simp only [XItem.representable]; exact hd
+      simp only [XItem.inDomainG, XItem.tag] at hd
+      simp only [XItem.representableG]; exact hd
     | .bytes t s, _, hd => by
-      simp only [XItem.inDomain, XItem.tag] at hd
-      simp only [XItem.representable]; exact hd
+      simp only [XItem.inDomainG, XItem.tag] at hd
+      simp only [XItem.representableG]; exact hd
     | .date t v, _, hd => by
-      simp only [XItem.inDomain] at hd
-      simp only [XItem.representable]; exact hd
+      simp only [XItem.inDomainG] at hd
+      simp only [XItem.representableG]; exact hd
     | .interval t v, hn, hd => by
       simp only [XItem.normal] at hn
-      simp only [XItem.inDomain, XItem.tag] at hd
+      simp only [XItem.inDomainG, XItem.tag] at hd
       simp only [XItem.representableG, Bool.and_eq_true]; exact ⟨hd, hn⟩
-  theorem repList_of_normal (H : Hints) : ∀ cs : List XItem, XItem.normalList H cs = true →
-      XItem.inDomainList cs = true → XItem.representableList R H cs = true
+  theorem repList_of_normal (R : Rfc3339) (H : Hints) : ∀ cs : List XItem, XItem.normalList H cs = true →
+      XItem.inDomainList R cs = true → XItem.representableList R H cs = true
     | [], _, _ => rfl
     | c :: cs, hn, hd => by
       simp only [XItem.normalList, Bool.and_eq_true] at hn
       simp only [XItem.inDomainList, Bool.and_eq_true] at hd
       simp only [XItem.representableList, Bool.and_eq_true]
-      exact ⟨rep_of_normal H c hn.1 hd.1, repList_of_normal H cs hn.2 hd.2⟩
+      exact ⟨rep_of_normal R H false c hn.1 hd.1, repList_of_normal R H cs hn.2 hd.2⟩
 end
+
+/-- a root-domain tree whose root tag is not 0 is in the strict domain. -/
+theorem inDomain_strict {R : Rfc3339} {t : XItem} (h : t.inDomainG true R = true) (hne : t.tag ≠ 0) :
+    t.inDomainG false R = true := by
+  have key : ∀ x : Int, tagOk0 x = true → x ≠ 0 → tagOk x = true := by
+    intro x hx h0
+    have := tagOk0_iff.mp hx
+    exact tagOk_iff.mpr ⟨by omega, this.2⟩
+  cases t <;> simp only [XItem.inDomainG, XItem.tag, rootTagOk, if_true, Bool.and_eq_true,
+    Bool.false_eq_true, if_false] at h hne ⊢ <;>
+    first
+    | exact ⟨key _ h.1 hne, h.2⟩
+    | exact key _ h hne
 
 theorem bind_eq_ok {α β : Type} {x : Res α} {f : α → Res β} {b : β} (h : (x >>= f) = .ok b) :
     ∃ a, x = .ok a ∧ f a = .ok b := by
@@ -1430,7 +1546,7 @@ theorem xMask_range {byName : Table} (hb : ∀ p ∈ byName, p.2 < 2 ^ 32) {s : 
   · cases h
 
 theorem scalar_inv {α : Type} {T : Tables} {c c' : XCur} {ty : Nat} {tag : Int} {conv : Str → Res α} {v : α}
-    (h : c.scalar T ty tag conv = .ok (v, c')) : ∃ s, conv s = .ok v := by
+    (h : c.scalar T ty tag conv = .ok (v, c')) : ∃ s, conv s = .ok v ∧ c.tag T = tag := by
   unfold XCur.scalar at h
   split at h
   · cases h
@@ -1441,7 +1557,8 @@ theorem scalar_inv {α : Type} {T : Tables} {c c' : XCur} {ty : Nat} {tag : Int}
       · obtain ⟨v', h1, h2⟩ := bind_eq_ok h
         obtain ⟨c'', _, h3⟩ := bind_eq_ok h2
         simp only [Res.pure_eq, Res.ok.injEq, Prod.mk.injEq] at h3
-        exact ⟨_, h3.1 ▸ h1⟩
+        rename_i htag _ _
+        exact ⟨_, h3.1 ▸ h1, Decidable.of_not_not htag⟩
 
 /-- whatever document the XML reader accepts, the tree it returns is normalised. -/
 theorem xDecode_normal {T : Tables} (hB : T.Bounded) {R : Rfc3339} {H : Hints} : ∀ fuel : Nat,
@@ -1463,19 +1580,19 @@ theorem xDecode_normal {T : Tables} (hB : T.Bounded) {R : Rfc3339} {H : Hints} :
         · obtain ⟨⟨v, c1⟩, h1, h2⟩ := bind_eq_ok h
           simp only [Res.pure_eq, Res.ok.injEq, Prod.mk.injEq] at h2
           obtain ⟨rfl, rfl⟩ := h2
-          obtain ⟨s, hs⟩ := scalar_inv h1
+          obtain ⟨s, hs, -⟩ := scalar_inv h1
           rename_i hm
           simp [XItem.normal, xInteger_range hs, hm]
         · obtain ⟨⟨v, c1⟩, h1, h2⟩ := bind_eq_ok h
           simp only [Res.pure_eq, Res.ok.injEq, Prod.mk.injEq] at h2
           obtain ⟨rfl, rfl⟩ := h2
-          obtain ⟨s, hs⟩ := scalar_inv h1
+          obtain ⟨s, hs, -⟩ := scalar_inv h1
           rename_i m hm
           simp [XItem.normal, xMask_range (hB.mask _) hs, hm]
       · obtain ⟨⟨v, c1⟩, h1, h2⟩ := bind_eq_ok h
         simp only [Res.pure_eq, Res.ok.injEq, Prod.mk.injEq] at h2
         obtain ⟨rfl, rfl⟩ := h2
-        obtain ⟨s, hs⟩ := scalar_inv h1
+        obtain ⟨s, hs, -⟩ := scalar_inv h1
         simp [XItem.normal, xLong_range hs]
       · obtain ⟨⟨v, c1⟩, h1, h2⟩ := bind_eq_ok h
         simp only [Res.pure_eq, Res.ok.injEq, Prod.mk.injEq] at h2
@@ -1496,14 +1613,14 @@ theorem xDecode_normal {T : Tables} (hB : T.Bounded) {R : Rfc3339} {H : Hints} :
       · obtain ⟨⟨v, c1⟩, h1, h2⟩ := bind_eq_ok h
         simp only [Res.pure_eq, Res.ok.injEq, Prod.mk.injEq] at h2
         obtain ⟨rfl, rfl⟩ := h2
-        obtain ⟨s, hs⟩ := scalar_inv h1
+        obtain ⟨s, hs, -⟩ := scalar_inv h1
         have := xEnum_range (hB.enum _) hs
         simp only [XItem.normal, Bool.and_eq_true, decide_eq_true_eq]
         exact ⟨by simpa using this, trivial⟩
       · obtain ⟨⟨v, c1⟩, h1, h2⟩ := bind_eq_ok h
         simp only [Res.pure_eq, Res.ok.injEq, Prod.mk.injEq] at h2
         obtain ⟨rfl, rfl⟩ := h2
-        obtain ⟨s, hs⟩ := scalar_inv h1
+        obtain ⟨s, hs, -⟩ := scalar_inv h1
         have := xInterval_range hs
         simp only [XItem.normal, decide_eq_true_eq]
         simpa using this
@@ -1628,7 +1745,8 @@ theorem jMask_range {byName : Table} (hb : ∀ p ∈ byName, p.2 < 2 ^ 32) {j : 
   · cases h
 
 theorem jscalar_inv {α : Type} {T : Tables} {c c' : JCur} {ty : Nat} {tag : Int}
-    {conv : Option JVal → Res α} {v : α} (h : c.scalar T ty tag conv = .ok (v, c')) : ∃ j, conv j = .ok v := by
+    {conv : Option JVal → Res α} {v : α} (h : c.scalar T ty tag conv = .ok (v, c')) :
+    ∃ j, conv j = .ok v ∧ c.tag T = tag := by
   unfold JCur.scalar at h
   split at h
   · cases h
@@ -1638,7 +1756,8 @@ theorem jscalar_inv {α : Type} {T : Tables} {c c' : JCur} {ty : Nat} {tag : Int
       · cases h
       · obtain ⟨v', h1, h2⟩ := bind_eq_ok h
         simp only [Res.pure_eq, Res.ok.injEq, Prod.mk.injEq] at h2
-        exact ⟨_, h2.1 ▸ h1⟩
+        rename_i htag _
+        exact ⟨_, h2.1 ▸ h1, Decidable.of_not_not htag⟩
 
 /-- whatever document the JSON reader accepts, the tree it returns is normalised. -/
 theorem jDecode_normal {T : Tables} (hB : T.Bounded) {R : Rfc3339} {H : Hints} : ∀ fuel : Nat,
@@ -1659,19 +1778,19 @@ theorem jDecode_normal {T : Tables} (hB : T.Bounded) {R : Rfc3339} {H : Hints} :
         · obtain ⟨⟨v, c1⟩, h1, h2⟩ := bind_eq_ok h
           simp only [Res.pure_eq, Res.ok.injEq, Prod.mk.injEq] at h2
           obtain ⟨rfl, rfl⟩ := h2
-          obtain ⟨s, hs⟩ := jscalar_inv h1
+          obtain ⟨s, hs, -⟩ := jscalar_inv h1
           rename_i hm
           simp [XItem.normal, jInteger_range hs, hm]
         · obtain ⟨⟨v, c1⟩, h1, h2⟩ := bind_eq_ok h
           simp only [Res.pure_eq, Res.ok.injEq, Prod.mk.injEq] at h2
           obtain ⟨rfl, rfl⟩ := h2
-          obtain ⟨s, hs⟩ := jscalar_inv h1
+          obtain ⟨s, hs, -⟩ := jscalar_inv h1
           rename_i m hm
           simp [XItem.normal, jMask_range (hB.mask _) hs, hm]
       · obtain ⟨⟨v, c1⟩, h1, h2⟩ := bind_eq_ok h
         simp only [Res.pure_eq, Res.ok.injEq, Prod.mk.injEq] at h2
         obtain ⟨rfl, rfl⟩ := h2
-        obtain ⟨s, hs⟩ := jscalar_inv h1
+        obtain ⟨s, hs, -⟩ := jscalar_inv h1
         simp [XItem.normal, jLong_range hs]
       · obtain ⟨⟨v, c1⟩, h1, h2⟩ := bind_eq_ok h
         simp only [Res.pure_eq, Res.ok.injEq, Prod.mk.injEq] at h2
@@ -1692,14 +1811,14 @@ theorem jDecode_normal {T : Tables} (hB : T.Bounded) {R : Rfc3339} {H : Hints} :
       · obtain ⟨⟨v, c1⟩, h1, h2⟩ := bind_eq_ok h
         simp only [Res.pure_eq, Res.ok.injEq, Prod.mk.injEq] at h2
         obtain ⟨rfl, rfl⟩ := h2
-        obtain ⟨s, hs⟩ := jscalar_inv h1
+        obtain ⟨s, hs, -⟩ := jscalar_inv h1
         have := jEnum_range (hB.enum _) hs
         simp only [XItem.normal, Bool.and_eq_true, decide_eq_true_eq]
         exact ⟨by simpa using this, trivial⟩
       · obtain ⟨⟨v, c1⟩, h1, h2⟩ := bind_eq_ok h
         simp only [Res.pure_eq, Res.ok.injEq, Prod.mk.injEq] at h2
         obtain ⟨rfl, rfl⟩ := h2
-        obtain ⟨s, hs⟩ := jscalar_inv h1
+        obtain ⟨s, hs, -⟩ := jscalar_inv h1
         have := jInterval_range hs
         simp only [XItem.normal, decide_eq_true_eq]
         simpa using this
@@ -1739,5 +1858,198 @@ theorem jsonRead_normal {T : Tables} (hB : T.Bounded) {R : Rfc3339} {H : Hints} 
   simp only [Res.pure_eq, Res.ok.injEq] at h
   subst h
   exact (jDecode_normal hB _).1 _ _ _ _ h1
+
+
+
+/-! ## 12. … and lies in the domain: tags are KMIP tags (0 at the root only), dates pass the year test -/
+
+theorem tagOfText_ok {T : Tables} (hB : T.Bounded) (s : Str) : tagOk0 (T.tagOfText s) = true := by
+  apply tagOk0_iff.mpr
+  simp only [Tables.tagOfText, hB.newTags, Bool.false_eq_true, if_false]
+  unfold tagFromText
+  split
+  · omega
+  · split
+    · rename_i n hn
+      have := parseUint_lt hn
+      simp at this; omega
+    · omega
+  · split
+    · rename_i t ht
+      have := hB.tagVals _ (lookup_mem ht)
+      simp at this; omega
+    · omega
+
+theorem xDate_inYears {R : Rfc3339} {s : Str} {v : Int} (h : xDate R s = .ok v) : R.inYears v = true := by
+  unfold xDate at h
+  split at h
+  · split at h
+    · rename_i hy
+      simp only [Res.ok.injEq] at h; subst h; exact hy
+    · cases h
+  · cases h
+
+theorem jDate_inYears {R : Rfc3339} (hR : R.Lawful) {j : Option JVal} {v : Int} (h : jDate R j = .ok v) :
+    R.inYears v = true := by
+  unfold jDate at h
+  split at h
+  · split at h
+    · cases h
+    · dsimp only at h
+      split at h
+      · cases h
+      · split at h
+        · cases h
+        · rename_i h0 h1
+          simp only [Res.ok.injEq] at h; subst h
+          exact hR.years _ (by unfold minEpoch; omega) (by omega)
+  · exact xDate_inYears h
+  · cases h
+
+/-- the XML reader: tags and dates of what it returns. -/
+theorem xDecode_domain {T : Tables} (hB : T.Bounded) {R : Rfc3339} {H : Hints} : ∀ fuel : Nat,
+    (∀ c tag t c', xDecodeValue T R H fuel c tag = .ok (t, c') → t.inDomainG true R = true ∧ t.tag = tag) ∧
+    (∀ c ts c', xDecodeFields T R H fuel c = .ok (ts, c') → XItem.inDomainList R ts = true) := by
+  intro fuel
+  induction fuel with
+  | zero =>
+    constructor
+    · intro c tag t c' h; simp [xDecodeValue] at h
+    · intro c ts c' h; simp [xDecodeFields] at h
+  | succ fuel ih =>
+    constructor
+    · intro c tag t c' h
+      have hk : ∀ c : XCur, rootTagOk true (c.tag T) = true := fun c => by
+        simpa [rootTagOk, XCur.tag] using tagOfText_ok hB c.rawTag
+      rw [xDecodeValue] at h
+      split at h
+      · split at h <;>
+        · obtain ⟨⟨v, c1⟩, h1, h2⟩ := bind_eq_ok h
+          simp only [Res.pure_eq, Res.ok.injEq, Prod.mk.injEq] at h2
+          obtain ⟨rfl, rfl⟩ := h2
+          obtain ⟨s, -, rfl⟩ := scalar_inv h1
+          exact ⟨by simp only [XItem.inDomainG, XItem.tag]; exact hk c, rfl⟩
+      all_goals try
+        (obtain ⟨⟨v, c1⟩, h1, h2⟩ := bind_eq_ok h
+         simp only [Res.pure_eq, Res.ok.injEq, Prod.mk.injEq] at h2
+         obtain ⟨rfl, rfl⟩ := h2
+         obtain ⟨s, hs, rfl⟩ := scalar_inv h1
+         first
+          | exact ⟨by simp only [XItem.inDomainG, XItem.tag]; exact hk c, rfl⟩
+          | exact ⟨by simp only [XItem.inDomainG, Bool.and_eq_true]; exact ⟨hk c, xDate_inYears hs⟩, rfl⟩)
+      · -- Structure
+        split at h
+        · cases h
+        · split at h
+          · cases h
+          · rename_i htag
+            have htag' : c.tag T = tag := Decidable.of_not_not htag
+            obtain ⟨sub, _, h⟩ := bind_eq_ok h
+            obtain ⟨⟨cs, sub'⟩, h2, h⟩ := bind_eq_ok h
+            obtain ⟨sub'', _, h⟩ := bind_eq_ok h
+            obtain ⟨c1, _, h⟩ := bind_eq_ok h
+            simp only [Res.pure_eq, Res.ok.injEq, Prod.mk.injEq] at h
+            obtain ⟨rfl, rfl⟩ := h
+            subst htag'
+            exact ⟨by simp only [XItem.inDomainG, Bool.and_eq_true]; exact ⟨hk c, ih.2 _ _ _ h2⟩, rfl⟩
+      · cases h
+    · intro c ts c' h
+      rw [xDecodeFields] at h
+      split at h
+      · simp only [Res.ok.injEq, Prod.mk.injEq] at h
+        obtain ⟨rfl, rfl⟩ := h
+        rfl
+      · rename_i hne
+        obtain ⟨⟨it, c1⟩, h1, h⟩ := bind_eq_ok h
+        obtain ⟨⟨rest, c2⟩, h2, h⟩ := bind_eq_ok h
+        simp only [Res.pure_eq, Res.ok.injEq, Prod.mk.injEq] at h
+        obtain ⟨rfl, rfl⟩ := h
+        have ⟨hd, ht⟩ := ih.1 _ _ _ _ h1
+        simp only [XItem.inDomainList, Bool.and_eq_true]
+        exact ⟨inDomain_strict hd (by rw [ht]; exact hne), ih.2 _ _ _ h2⟩
+
+/-- the JSON reader: tags and dates of what it returns. -/
+theorem jDecode_domain {T : Tables} (hB : T.Bounded) {R : Rfc3339} (hR : R.Lawful) {H : Hints} : ∀ fuel : Nat,
+    (∀ c tag t c', jDecodeValue T R H fuel c tag = .ok (t, c') → t.inDomainG true R = true ∧ t.tag = tag) ∧
+    (∀ c ts, jDecodeFields T R H fuel c = .ok ts → XItem.inDomainList R ts = true) := by
+  intro fuel
+  induction fuel with
+  | zero =>
+    constructor
+    · intro c tag t c' h; simp [jDecodeValue] at h
+    · intro c ts h; simp [jDecodeFields] at h
+  | succ fuel ih =>
+    constructor
+    · intro c tag t c' h
+      have hk : ∀ c : JCur, rootTagOk true (c.tag T) = true := fun c => by
+        have h0 : tagOk0 (0 : Int) = true := by decide
+        unfold JCur.tag
+        split
+        · simpa [rootTagOk] using tagOfText_ok hB _
+        · simpa [rootTagOk] using h0
+      rw [jDecodeValue] at h
+      split at h
+      · split at h <;>
+        · obtain ⟨⟨v, c1⟩, h1, h2⟩ := bind_eq_ok h
+          simp only [Res.pure_eq, Res.ok.injEq, Prod.mk.injEq] at h2
+          obtain ⟨rfl, rfl⟩ := h2
+          obtain ⟨s, -, rfl⟩ := jscalar_inv h1
+          exact ⟨by simp only [XItem.inDomainG, XItem.tag]; exact hk c, rfl⟩
+      all_goals try
+        (obtain ⟨⟨v, c1⟩, h1, h2⟩ := bind_eq_ok h
+         simp only [Res.pure_eq, Res.ok.injEq, Prod.mk.injEq] at h2
+         obtain ⟨rfl, rfl⟩ := h2
+         obtain ⟨s, hs, rfl⟩ := jscalar_inv h1
+         first
+          | exact ⟨by simp only [XItem.inDomainG, XItem.tag]; exact hk c, rfl⟩
+          | exact ⟨by simp only [XItem.inDomainG, Bool.and_eq_true]; exact ⟨hk c, jDate_inYears hR hs⟩, rfl⟩)
+      · split at h
+        · cases h
+        · split at h
+          · cases h
+          · rename_i htag
+            have htag' : c.tag T = tag := Decidable.of_not_not htag
+            split at h
+            · obtain ⟨cs, h2, h⟩ := bind_eq_ok h
+              simp only [Res.pure_eq, Res.ok.injEq, Prod.mk.injEq] at h
+              obtain ⟨rfl, rfl⟩ := h
+              subst htag'
+              exact ⟨by simp only [XItem.inDomainG, Bool.and_eq_true]; exact ⟨hk c, ih.2 _ _ h2⟩, rfl⟩
+            · cases h
+      · cases h
+    · intro c ts h
+      rw [jDecodeFields] at h
+      split at h
+      · simp only [Res.ok.injEq] at h
+        subst h
+        rfl
+      · rename_i hne
+        obtain ⟨⟨it, c1⟩, h1, h⟩ := bind_eq_ok h
+        obtain ⟨rest, h2, h⟩ := bind_eq_ok h
+        simp only [Res.pure_eq, Res.ok.injEq] at h
+        subst h
+        have ⟨hd, ht⟩ := ih.1 _ _ _ _ h1
+        simp only [XItem.inDomainList, Bool.and_eq_true]
+        exact ⟨inDomain_strict hd (by rw [ht]; exact hne), ih.2 _ _ h2⟩
+
+/-- whatever the XML reader accepts, it returns a tree of the (root) representable domain. -/
+theorem xmlReadToks_rep {T : Tables} (hB : T.Bounded) {R : Rfc3339} {H : Hints} {toks : List Tok}
+    {t : XItem} (h : xmlReadToks T R H toks = .ok t) : t.representableG true R H = true := by
+  have hn := xmlReadToks_normal hB h
+  unfold xmlReadToks at h
+  obtain ⟨c, _, h⟩ := bind_eq_ok h
+  obtain ⟨⟨it, c'⟩, h1, h⟩ := bind_eq_ok h
+  simp only [Res.pure_eq, Res.ok.injEq] at h
+  subst h
+  exact rep_of_normal R H true _ hn ((xDecode_domain hB _).1 _ _ _ _ h1).1
+
+theorem jsonRead_rep {T : Tables} (hB : T.Bounded) {R : Rfc3339} (hR : R.Lawful) {H : Hints} {j : JVal}
+    {t : XItem} (h : jsonRead T R H j = .ok t) : t.representableG true R H = true := by
+  have hn := jsonRead_normal hB h
+  unfold jsonRead at h
+  obtain ⟨⟨it, c'⟩, h1, h⟩ := bind_eq_ok h
+  simp only [Res.pure_eq, Res.ok.injEq] at h
+  subst h
+  exact rep_of_normal R H true _ hn ((jDecode_domain hB hR _).1 _ _ _ _ h1).1
 
 end Kmip.Lex
